@@ -143,6 +143,26 @@ func (g *Gen) call(x ssa.Value, cc *ssa.CallCommon, st *State) {
 		g.builtin(x, b, cc, st)
 		return
 	}
+	if g.atomicCall(x, cc, st) {
+		return
+	}
+	if len(g.shared()) > 0 {
+		// the environment may run before the call, and again once it has returned
+		g.interfere(st)
+		prev := st.clone()
+		g.callInner(x, cc, st)
+		if st.r != "false" {
+			if g.touchesShared(st, prev) {
+				g.checkGuar(prev, st, fmt.Sprintf("call:%s#%d", calleeName(cc), g.callOrd[calleeName(cc)]), cc.Pos())
+			}
+			g.interfere(st)
+		}
+		return
+	}
+	g.callInner(x, cc, st)
+}
+
+func (g *Gen) callInner(x ssa.Value, cc *ssa.CallCommon, st *State) {
 	var args []Val
 	if cc.IsInvoke() {
 		args = append(args, g.val(cc.Value))
@@ -154,6 +174,13 @@ func (g *Gen) call(x ssa.Value, cc *ssa.CallCommon, st *State) {
 	cname := calleeName(cc)
 	g.callOrd[cname]++
 	k := g.callOrd[cname]
+	if g.c != nil {
+		for _, nc := range g.c.NoCall {
+			if nc == cname {
+				g.assert(st, "nocall", cname, "false", "the contract forbids calling "+cname+" here", cc.Pos())
+			}
+		}
+	}
 	sig := cc.Signature()
 	var pos = cc.Pos()
 	// parameter names
@@ -271,7 +298,11 @@ func (g *Gen) call(x ssa.Value, cc *ssa.CallCommon, st *State) {
 	if len(res) == 1 {
 		vars["result"] = res[0]
 	}
-	post := g.env(st, vars)
+	pvars := vars
+	if ct.Key != "" && strings.HasPrefix(ct.Key, "param:") {
+		pvars = g.callScope(vars) // callee clauses of the caller may mention the caller's locals
+	}
+	post := g.env(st, pvars)
 	post.old = pre
 	for _, e := range ct.Ensures {
 		// a clause about the callee's own ghost bindings cannot be stated at a caller: it is dropped (weaker assumption)
